@@ -447,6 +447,10 @@ func runC04(ctx *h.Ctx) int {
 			k.C.Inconclusive("cannot run the CLI: %v", cli.Err)
 			return
 		}
+		if lib := h.Compile(src, o); lib.OK() != (cli.Exit == 0) {
+			k.Violation("cli-accept-differs", fmt.Sprintf("the library %s the program, the binary exits %d: %s", map[bool]string{true: "accepts", false: "rejects"}[lib.OK()], cli.Exit, firstLineOf(cli.Stderr)), nil)
+			return
+		}
 		if cli.Exit != 0 {
 			k.Count("rejected", 1)
 			return
